@@ -6,20 +6,43 @@ from ..builder import Canon
 J = 'each(Range::Range{0, 64})'
 SS1 = 'rotate_left(wrapping_add(wrapping_add(rotate_left(var:a@in, 12), var:e@in), rotate_left(t(%s), (%s as u32))), 7)' % (J, J)
 ROUND = {
-    'a': 'wrapping_add(wrapping_add(wrapping_add(ff(var:a@in, var:b@in, var:c@in, (%s as u32)), var:d@in), BitXor(%s, rotate_left(var:a@in, 12))), var:w1=repeat{0}[%s])' % (J, SS1, J),
+    'a': 'wrapping_add(wrapping_add(wrapping_add(ff(var:a@in, var:b@in, var:c@in, (%s as u32)), var:d@in), BitXor(%s, rotate_left(var:a@in, 12))), var:w1=repeat{0}[%s]#{E|[%s]})' % (J, SS1, J, J),
     'b': 'var:a@in', 'c': 'rotate_left(var:b@in, 9)', 'd': 'var:c@in',
-    'e': 'p0(wrapping_add(wrapping_add(wrapping_add(gg(var:e@in, var:f@in, var:g@in, (%s as u32)), var:h@in), %s), var:w=repeat{0}[%s]))' % (J, SS1, J),
+    'e': 'p0(wrapping_add(wrapping_add(wrapping_add(gg(var:e@in, var:f@in, var:g@in, (%s as u32)), var:h@in), %s), var:w=repeat{0}[%s]@WV@))' % (J, SS1, J),
     'f': 'var:e@in', 'g': 'rotate_left(var:f@in, 19)', 'h': 'var:g@in',
 }
 W = 'var:w=repeat{0}'
 J16, J68 = 'each(Range::Range{0, 16})', 'each(Range::Range{16, 68})'
-EXPAND = 'BitXor(BitXor(p1(BitXor(BitXor(%s[SubWithOverflow(@J@, 16).0], %s[SubWithOverflow(@J@, 9).0]), rotate_left(%s[SubWithOverflow(@J@, 3).0], 15))), rotate_left(%s[SubWithOverflow(@J@, 13).0], 7)), %s[SubWithOverflow(@J@, 6).0])'.replace('@J@', J68) % (W, W, W, W, W)
+# memory version of every read of W: it may see the zero initialisation, the load loop's stores and the expansion loop's stores
+WV = '#{E|[%s]|[%s]}' % (J16, J68)
+ROUND['e'] = ROUND['e'].replace('@WV@', WV)
+EXPAND = 'BitXor(BitXor(p1(BitXor(BitXor(%s[SubWithOverflow(@J@, 16).0]@WV@, %s[SubWithOverflow(@J@, 9).0]@WV@), rotate_left(%s[SubWithOverflow(@J@, 3).0]@WV@, 15))), rotate_left(%s[SubWithOverflow(@J@, 13).0]@WV@, 7)), %s[SubWithOverflow(@J@, 6).0]@WV@)'.replace('@J@', J68).replace('@WV@', WV) % (W, W, W, W, W)
 LOAD = 'BitOr(BitOr(BitOr(Shl(($b_i[MulWithOverflow(@J@, 4).0] as u32), 24), Shl(($b_i[AddWithOverflow(MulWithOverflow(@J@, 4).0, 1).0] as u32), 16)), Shl(($b_i[AddWithOverflow(MulWithOverflow(@J@, 4).0, 2).0] as u32), 8)), ($b_i[AddWithOverflow(MulWithOverflow(@J@, 4).0, 3).0] as u32))'.replace('@J@', J16)
 BOOL = {
     'ff': ('BitXor(BitXor($x, $y), $z)', 'BitOr(BitOr(BitAnd($x, $y), BitAnd($x, $z)), BitAnd($y, $z))'),
     'gg': ('BitXor(BitXor($x, $y), $z)', 'BitOr(BitAnd($x, $y), BitAnd(Not($x), $z))'),
     't': ('T00', 'T16'),
 }
+
+
+def _closed_fill(cn, newlen):
+    """(ok, text) for the new length of the padded vector after the closed-form zero fill, evaluated for len = 0..127"""
+    from ..prov import strip
+    bad = []
+    for L in range(128):
+        def hook(e):
+            if e.k == 'call' and last(e.name) == 'len':
+                t = cn.c(e)
+                return L if t == 'len($msg)' else L + 1 if t == 'len([$msg, byte(128)])' else None
+            return None
+        v = I.eval_small(newlen, {}, hook=hook)
+        if v is None:
+            return (False, 'the new length %s is not a function of len(msg) alone' % FR.short(cn.c(newlen), 160))
+        if not (v >= L + 1 and v - (L + 1) < 64 and (v + 8) % 64 == 0):
+            bad.append((L, v))
+    if bad:
+        return (False, 'len=%d gives padded length %d before the length field (want the least value >= len+1 that is 56 mod 64)' % bad[0])
+    return (True, 'all 128 lengths give the least padded length >= len+1 that is 56 mod 64')
 
 
 def run(cx):
@@ -66,7 +89,7 @@ def run(cx):
         cx.add('I-SM3', 'cf/load', (J16, LOAD) in ws, 'W_j (j<16) = big-endian word j of the block', cf.loc(), {'stores': [FR.short(x[1], 120) for x in ws]})
         cx.add('I-SM3', 'cf/expand', (J68, EXPAND) in ws, 'W_j = P1(W_{j-16} ^ W_{j-9} ^ (W_{j-3} <<< 15)) ^ (W_{j-13} <<< 7) ^ W_{j-6}', cf.loc())
         w1 = I.stores(cf, F, 'w1')
-        cx.add('I-SM3', 'cf/w1', w1 == [(J, 'BitXor(%s[%s], %s[AddWithOverflow(%s, 4).0])' % (W, J, W, J))], "W'_j = W_j ^ W_{j+4}", cf.loc())
+        cx.add('I-SM3', 'cf/w1', w1 == [(J, 'BitXor(%s[%s]%s, %s[AddWithOverflow(%s, 4).0]%s)' % (W, J, WV, W, J, WV))], "W'_j = W_j ^ W_{j+4}", cf.loc())
         # loop bounds of the three word loops (counted while-loops and for-loops are written alike): the ranges the
         # stored indices run over
         P = Prov(cf, F, cut_loops=True); cn = Canon(cf, P)
@@ -90,8 +113,8 @@ def run(cx):
     E8 = 'each(Range::Range{0, 8})'
     V = 'var:v_i=IV'
     got = [(a, b.replace(V, 'V').replace('IV[', 'V[')) for a, b in out]
-    want = [('MulWithOverflow(%s, 4).0' % E8, '(Shr(V[%s], 24) as u8)' % E8), ('AddWithOverflow(MulWithOverflow(%s, 4).0, 1).0' % E8, '(Shr(V[%s], 16) as u8)' % E8),
-            ('AddWithOverflow(MulWithOverflow(%s, 4).0, 2).0' % E8, '(Shr(V[%s], 8) as u8)' % E8), ('AddWithOverflow(MulWithOverflow(%s, 4).0, 3).0' % E8, '(V[%s] as u8)' % E8)]
+    want = [('MulWithOverflow(%s, 4).0' % E8, '(Shr(V[%s]#{E|call:cf}, 24) as u8)' % E8), ('AddWithOverflow(MulWithOverflow(%s, 4).0, 1).0' % E8, '(Shr(V[%s]#{E|call:cf}, 16) as u8)' % E8),
+            ('AddWithOverflow(MulWithOverflow(%s, 4).0, 2).0' % E8, '(Shr(V[%s]#{E|call:cf}, 8) as u8)' % E8), ('AddWithOverflow(MulWithOverflow(%s, 4).0, 3).0' % E8, '(V[%s]#{E|call:cf} as u8)' % E8)]
     cx.add('I-SM3', 'sm3_hash/output', got == want, 'digest = big-endian bytes of V[0..8]', h.loc(), {'got': out})
     CG = 'var:count_group@in'
     rng = 'Range::Range{MulWithOverflow(%s, 64).0, AddWithOverflow(MulWithOverflow(%s, 64).0, 64).0}' % (CG, CG)
@@ -127,8 +150,29 @@ def run(cx):
                     pushes.append(cn.c(a_.elem) if a_.elem is not None else '?')
                     app_blocks.append(a_.block)
         BL = '(Shl(len($msg), 3) as u64)'
-        want = ['128', '0'] + ['(BitAnd(Shr(%s, %d), 255) as u8)' % (BL, s_) for s_ in (56, 48, 40, 32, 24, 16, 8)] + ['(BitAnd(%s, 255) as u8)' % BL]
-        alt = ['128', '0'] + ['(Shr(%s, %d) as u8)' % (BL, s_) for s_ in (56, 48, 40, 32, 24, 16, 8)] + ['(%s as u8)' % BL]
+        tailw = ['(BitAnd(Shr(%s, %d), 255) as u8)' % (BL, s_) for s_ in (56, 48, 40, 32, 24, 16, 8)] + ['(BitAnd(%s, 255) as u8)' % BL]
+        taila = ['(Shr(%s, %d) as u8)' % (BL, s_) for s_ in (56, 48, 40, 32, 24, 16, 8)] + ['(%s as u8)' % BL]
+        want = ['128', '0'] + tailw
+        alt = ['128', '0'] + taila
+        # closed-form zero fill: `v.resize(NEWLEN, 0)` between 0x80 and the length bytes.  NEWLEN is decided over the finite
+        # domain len mod 64 (two periods): the fill is the shortest one that makes the total length 0 mod 64
+        closed = None
+        if pushes[:1] == ['$msg']:
+            # the padded vector is a new one that starts as a copy of the message
+            pushes = pushes[1:]; app_blocks = app_blocks[1:]
+        if pushes in (['128'] + tailw, ['128'] + taila):
+            rs = [a_ for L_ in sorted(roots) for a_ in appends(pd, P, L_, None) if a_.kind == 'other:resize']
+            if len(rs) == 1 and not rs[0].in_loop and len(getattr(rs[0], 'elems', ())) == 2 and const_int(rs[0].elems[1]) == 0:
+                closed = _closed_fill(cn, rs[0].elems[0])
+        if closed is not None:
+            cx.add('L-LEN64', 'pad/bytes', closed[0], 'padding = 0x80, resize(NEWLEN, 0), then the 64-bit big-endian BIT length; NEWLEN decided for every len mod 64 over two periods: %s' % closed[1], pd.loc())
+            lens = [b for b in FR.calls_of(pd, 'len')]
+            first_len = min(lens) if lens else None
+            dom = pd.dominators()
+            cx.add('L-LEN64', 'pad/len-before-append', first_len is not None and all(first_len in dom.get(b, ()) for b in set(app_blocks)), 'the bit length is computed before anything is appended', pd.loc())
+            cx.add('L-LEN64', 'pad/fill-loop', not any(b in c for b in set(app_blocks) for c in pd.sccs()), 'closed-form fill: nothing is appended inside a loop', pd.loc())
+            cx.add('L-LEN64', 'pad/fill-exit', closed[0], 'closed-form fill: total length before the length field = 56 mod 64 with fewer than 64 zero bytes (%s)' % closed[1], pd.loc())
+            return
         cx.add('L-LEN64', 'pad/bytes', pushes in (want, alt), 'padding = 0x80, zeros, then the 64-bit big-endian BIT length (8*len carried in 64 bits, 8 bytes): %s' % pushes, pd.loc())
         # the length is taken from the ORIGINAL message (before 0x80 is appended)
         lens = [b for b in FR.calls_of(pd, 'len')]
